@@ -8,6 +8,7 @@ import AioftpModel.Driver.Perms
 import AioftpModel.Driver.Faults
 import AioftpModel.Driver.Abort
 import AioftpModel.Driver.Logs
+import AioftpModel.Driver.Framing
 
 open Codec Model Py
 
@@ -52,6 +53,7 @@ def handlePure : List String → Option String
   | "fault" :: rest => DriverFaults.handleFaults rest
   | "abor" :: rest => DriverAbort.handleAbort rest
   | "logs" :: rest => DriverLogs.handleLogs rest
+  | "framing" :: rest => DriverFraming.handleFraming rest
   | _ => none
 
 def handle (st : DState) (line : String) : DState × String :=
